@@ -1148,8 +1148,9 @@ class Env(object):
             return      # counts of a mixture string and the mass depend on T's (mutated) masses and densities
         self.counts['private_parse_comparisons'] += 1
         ref = self.canon['events']['pub.parse:%d' % k]
+        ref = tuple(ref[:2]) if isinstance(ref, (list, tuple)) and len(ref) == 3 else ref   # (text, mass[, foreign atoms])
         got = safe(lambda: _formula_value(f))
-        if got != ref:
+        if got != ref and not (isinstance(got, (list, tuple)) and isinstance(ref, (list, tuple)) and list(got) == list(ref)):
             self.violation('private-fresh', 'b', T, 'mass',
                            'formula(%r, table=%s) -> %s, public canonical %s' % (FORMULA_STRINGS[k], T, short(got, 60), short(ref, 60)),
                            symptom=value_kind(got), entries=[('parse:%d' % k, 'value', got, ref)])
@@ -1298,8 +1299,19 @@ def _formula_value(f, with_mass=True):
 
 def _parse_value(tb, k):
     import periodictable as pt
+    from periodictable import core
     f = pt.formula(FORMULA_STRINGS[k]) if tb is None else pt.formula(FORMULA_STRINGS[k], table=tb)
-    return _formula_value(f)
+    # the atoms must be the objects of the table that was asked for (the public one when none is given),
+    # whatever was parsed with another table before
+    home = pt.elements if tb is None else tb
+    foreign = 0
+    for a in f.atoms:
+        base = a.element if core.ision(a) else a
+        if isinstance(base, core.Isotope):
+            base = base.element
+        if home[base.number] is not base:
+            foreign += 1
+    return _formula_value(f) + (foreign,)
 
 
 def play(history, canon, heap=True):
